@@ -392,8 +392,17 @@ def idx_shape(e):
     return e[0]
 
 
-def rule_same_words(ctx):
-    """From<&Board> and the incremental mutators use the same table field with the same index maps."""
+def norm_shape(sh):
+    """Make mutator-side and from-scratch-side index shapes comparable: the value variable and the Option payload are the
+    same thing, and Square -> usize equals u8 -> usize of the square index (checked by `square-index-maps`)."""
+    import re
+    sh = re.sub(r"\b(v|payload)\b", "x", sh)
+    return sh.replace("usize(square:", "usize(sq:").replace("usize(u8:", "usize(sq:")
+
+
+def rule_same_words(ctx, strict=False):
+    """From<&Board> and the incremental mutators use the same table field with the same index maps.
+    (strict=True, used by C05, additionally requires the index maps to be the known injective conversions.)"""
     ix = ctx.ix
     want = {
         "add_or_remove_piece": ("pieces", ("usize(colour:get_color(v))", "usize(kind:v)", "usize(square:v)")),
@@ -402,13 +411,16 @@ def rule_same_words(ctx):
         "change_turn": ("white_turn", ()),
     }
     got_fields = set()
+    mut_shapes = {}
     for m, (fld, shapes) in want.items():
         ws, b, sym = xor_words(ix, ZK + m)
         ctx.functions.add(ZK + m)
-        ok = len(ws) == 1 and ws[0][0] == fld and tuple(idx_shape(x) for x in ws[0][1]) == shapes
+        got = tuple(idx_shape(x) for x in ws[0][1]) if len(ws) == 1 else None
+        ok = len(ws) == 1 and ws[0][0] == fld and (got == shapes if strict else len(got) == len(shapes))
         got_fields.add(ws[0][0] if ws else None)
-        ctx.check(ok, "ZKey::%s:word" % m, "ZKey::%s XORs TABLE.%s%s" % (m, fld, "".join("[%s]" % s for s in shapes)), b.where(ws[0][2] if ws else 0),
-                  bad_what="ZKey::%s XORs %s" % (m, [(w[0], [idx_shape(x) for x in w[1]]) for w in ws]))
+        mut_shapes[fld] = got
+        ctx.check(ok, "ZKey::%s:word" % m, "ZKey::%s XORs TABLE.%s%s" % (m, fld, "".join("[%s]" % s for s in (got or ()))), b.where(ws[0][2] if ws else 0),
+                  bad_what="ZKey::%s XORs %s%s" % (m, [(w[0], [idx_shape(x) for x in w[1]]) for w in ws], " (expected the plain conversions %s: any other index map may send two components to one word)" % (shapes,) if strict else ""))
     ctx.check(len(got_fields) == 4, "four-distinct-tables", "the four mutators use four different ZTable fields", bad_what="mutators share a table field: %s" % got_fields)
     ws, fb, fsym = xor_words(ix, ZFROM)
     ctx.functions.add(ZFROM)
@@ -417,9 +429,11 @@ def rule_same_words(ctx):
         by_field.setdefault(fld, []).append((idx, bi))
     # pieces
     p = by_field.get("pieces", [])
-    ok = len(p) == 1 and tuple(idx_shape(x) for x in p[0][0]) == ("usize(colour:get_color(payload))", "usize(kind:payload)", "usize(u8:payload)")
-    ctx.check(ok, "From:pieces-word", "from-scratch: pieces[usize(colour of piece)][usize(piece)][usize(square index)] for the piece found on that square", fb.where(p[0][1] if p else 0),
-              bad_what="from-scratch piece word is %s" % [[idx_shape(x) for x in w[0]] for w in p])
+    fshape = tuple(idx_shape(x) for x in p[0][0]) if len(p) == 1 else None
+    same = fshape is not None and mut_shapes.get("pieces") is not None and tuple(map(norm_shape, fshape)) == tuple(map(norm_shape, mut_shapes["pieces"]))
+    ok = same and (not strict or fshape == ("usize(colour:get_color(payload))", "usize(kind:payload)", "usize(u8:payload)"))
+    ctx.check(ok, "From:pieces-word", "from-scratch: pieces[colour of piece][piece][square index] for the piece found on that square, the same index maps as add_or_remove_piece", fb.where(p[0][1] if p else 0),
+              bad_what="from-scratch piece word is indexed %s but the incremental one %s" % (fshape, mut_shapes.get("pieces")))
     # castling: four words, each under castle_status(K) == Available with the same K
     c = by_field.get("castling", [])
     kinds = []
@@ -432,11 +446,13 @@ def rule_same_words(ctx):
         kinds.append(k)
     ctx.check(sorted(kinds) == sorted(KIND_FIELD), "From:castling-four-kinds", "all four castling kinds contribute", fb.where(0), bad_what="from-scratch castling words: %s" % kinds)
     e = by_field.get("en_passant", [])
-    ok = len(e) == 1 and idx_shape(e[0][0][0]) == "usize(u8:payload)"
+    eshape = idx_shape(e[0][0][0]) if len(e) == 1 else None
+    ok = eshape is not None and mut_shapes.get("en_passant") is not None and norm_shape(eshape) == norm_shape(mut_shapes["en_passant"][0]) and (not strict or eshape == "usize(u8:payload)")
     if ok:
         cons = C.constraints_for(ix, fb, fsym, e[0][1])
         ok = any("en_passant_file" in x[0] and "Some" in x[1] for x in cons)
-    ctx.check(ok, "From:en-passant-word", "en_passant[usize(file)] is XORed iff board.en_passant_file is Some(file)", fb.where(e[0][1] if e else 0), bad_what="from-scratch en-passant word: %s" % e)
+    ctx.check(ok, "From:en-passant-word", "en_passant[<same index map as change_en_passant>(file)] is XORed iff board.en_passant_file is Some(file)", fb.where(e[0][1] if e else 0),
+              bad_what="from-scratch en-passant word is indexed `%s` (incremental: %s)%s" % (eshape, mut_shapes.get("en_passant"), "; expected the plain usize::from(file)" if strict else ""))
     t = by_field.get("white_turn", [])
     ok = len(t) == 1
     if ok:
